@@ -43,9 +43,10 @@ Bad(e) ==
   \cup (IF e.len # (IF werr' THEN 0 ELSE Len(wbuf')) THEN {"C20.len"} ELSE {})
   \cup (IF werr /\ e.err # wmsg THEN {"C20.sticky.w"} ELSE {})
   ELSE IF e.ev = "OBytes" THEN
-       (IF e.oerr # werr \/ (~werr /\ e.out # wbuf) THEN {"C20.bytes"} ELSE {})
+       \* (after a failed write the observers hand out the error and nothing else)
+       (IF e.oerr # werr \/ (~werr /\ e.out # wbuf) \/ (werr /\ e.out # <<>>) THEN {"C20.bytes"} ELSE {})
   ELSE IF e.ev = "OBytesLen" THEN
-       (IF e.oerr # werr \/ (~werr /\ e.out # BE(Len(wbuf) + 4, 4) \o wbuf)
+       (IF e.oerr # werr \/ (~werr /\ e.out # BE(Len(wbuf) + 4, 4) \o wbuf) \/ (werr /\ e.out # <<>>)
           THEN {"C20.prefixed"} ELSE {})
   ELSE IF IsR(e) THEN
        (IF (e.err # "") # rerr' THEN {"C20.rerr"} ELSE {})
